@@ -106,10 +106,55 @@ def ask_all(spec):
 
 # ---------------------------------------------------------------- generator
 
+_TRANSITIONS = None
+
+
+def transitions():
+    """(zone, local wall-clock datetime at which the old offset ends, shift in minutes) for every offset change of the
+    non-UTC zones in 1970-2037, read from the installed zoneinfo: the instants around which a naive wall-clock value does
+    not exist (spring forward) or exists twice (fall back) in that zone"""
+    global _TRANSITIONS
+    if _TRANSITIONS is None:
+        from datetime import timezone
+        from zoneinfo import ZoneInfo
+
+        out = []
+        for z in ZONES[1:]:
+            tz = ZoneInfo(z)
+            off = lambda u: u.astimezone(tz).utcoffset()
+            u = datetime(1970, 1, 1, tzinfo=timezone.utc)
+            end = datetime(2038, 1, 1, tzinfo=timezone.utc)
+            prev = off(u)
+            while u < end:
+                nxt = u + timedelta(days=1)
+                cur = off(nxt)
+                if cur != prev:
+                    lo, hi = u, nxt
+                    while hi - lo > timedelta(minutes=1):
+                        mid = lo + (hi - lo) / 2
+                        mid = mid.replace(second=0, microsecond=0)
+                        if off(mid) == prev:
+                            lo = mid
+                        else:
+                            hi = mid
+                    out.append((z, (hi + prev).replace(tzinfo=None), int((cur - prev).total_seconds() // 60)))
+                    prev = cur
+                u = nxt
+        _TRANSITIONS = out
+    return _TRANSITIONS
+
+
 @st.composite
 def near_dst(draw):
-    """an instant within two days of a daylight-saving transition of one of the zones; half of them inside the hours
-    that a spring-forward skips or a fall-back repeats (02:00-03:59 on the transition Sundays)"""
+    """an instant near a daylight-saving transition of one of the zones. 60 %: around a real transition taken from the
+    installed zoneinfo (within two hours of it, most of them inside the skipped / repeated wall-clock hour); the rest:
+    generic Sundays of the transition months (covers rule sets the table does not list), half of them at 01:00-03:59"""
+    if draw(st.integers(0, 9)) < 6:
+        z, wall, shift = draw(st.sampled_from(transitions()))
+        mins = draw(st.sampled_from([-120, -61, -60, -59, -45, -40, -30, -15, -1, 0, 0, 1, 15, 29, 30, 31, 44, 45, 59, 60, 61, 90, 120, abs(shift), abs(shift) - 1]))
+        t = wall + timedelta(minutes=mins, seconds=draw(st.sampled_from([0, 0, 0, 59])), milliseconds=draw(st.sampled_from([0, 0, 0, 1, 999])))
+        if 1970 <= t.year <= 2037:
+            return tg.iso(t)
     y = draw(st.integers(1970, 2037))
     mo = draw(st.sampled_from([3, 4, 9, 10, 11]))
     first = datetime(y, mo, 1)
@@ -130,9 +175,17 @@ def an_instant():
 
 @st.composite
 def scale_case(draw):
-    if draw(st.integers(0, 9)) < 3:
+    if draw(st.integers(0, 9)) < 4:
+        # the transition instant is either end of the domain (nice() floors the lower and ceils the upper end through
+        # different code), and half of the spans are hours to a few days: the spans whose ticks are multi-step hour/day
+        # intervals, which nice() walks boundary by boundary (seeded change C18-G needs exactly that at the upper end)
         t0 = tg.parse(draw(near_dst()))
-        sp = draw(tg.span_ms(1, int(3 * 365 * 86400e3)))
+        if draw(st.booleans()):
+            sp = int(draw(st.sampled_from([3600e3, 6 * 3600e3, 17 * 3600e3, 86400e3, 40 * 3600e3, 3 * 86400e3, 10 * 86400e3])) * draw(st.floats(0.5, 1.5)))
+        else:
+            sp = draw(tg.span_ms(1, int(3 * 365 * 86400e3)))
+        if draw(st.booleans()):
+            t0 = t0 - timedelta(milliseconds=sp)
         d0, d1 = tg.iso(t0), tg.iso(t0 + timedelta(milliseconds=sp))
         dst = True
     else:
